@@ -9,7 +9,7 @@
    consumed (POSTCONDITION AllConsumed); each event's verdict (ok / skip / a
    diagnosis) goes to the verdict file, so that one rejected event never hides
    the rest of the trace. *)
-EXTENDS SemOverflow, AsCodedOverflow, SemScaled, SemRounding, AsCodedRounding, SemElastic, SemSqrt, SemFraction, SemWide, SemNative, SemParse, TLC, TLCExt, Json, IOUtils, CSV
+EXTENDS SemOverflow, AsCodedOverflow, SemScaled, SemRounding, AsCodedRounding, SemElastic, SemSqrt, SemFraction, SemWide, SemNative, SemParse, SemMath, TLC, TLCExt, Json, IOUtils, CSV
 
 Tr == ndJsonDeserialize(IOEnv.TRACE)
 Insts == ndJsonDeserialize(IOEnv.INSTS)
@@ -62,6 +62,8 @@ Verdict0(e, i) ==
       [] e.e = "Parse" -> JudgeParse(e, i)
       [] e.e = "Lit" -> JudgeLit(e, i)
       [] e.e = "Make" -> JudgeMake(e, i)
+      [] e.e = "Exp2" -> JudgeExp2(e, i)
+      [] e.e = "Const" -> JudgeConst(e, i)
       [] e.e = "RDiv" -> JudgeRDiv(e, i)
       [] e.e = "ROp" -> JudgeROp(e, i)
       [] e.e = "RConv" -> JudgeRConv(e, i)
